@@ -48,10 +48,21 @@ def hbSafe : Ty → Bool
   | .list u => !acceptsBare u
   | t => !acceptsBare t
 
-/-- delegated body position, `names` = the attribute fields of the container -/
+def variantTags : Variants → List String
+  | .nil => []
+  | .cons tag _ rest => tag :: variantTags rest
+
+def nthVariant : Variants → Nat → Option (String × Fields)
+  | .nil, _ => none
+  | .cons tag fs _, 0 => some (tag, fs)
+  | .cons _ _ rest, k + 1 => nthVariant rest k
+
+/-- delegated body position, `names` = the attribute fields of the container: the first attribute the body
+contributes (the tag of a struct, of any variant of an enum) must not be one of them -/
 def bodySafe (names : List String) : Ty → Bool
   | .int _ | .bool | .text | .unit | .list _ => true
   | .struct tag _ => !names.contains tag
+  | .enum vs => (variantTags vs).all fun t => !names.contains t
   | _ => false
 
 /-- types a `#[form(skip)]` field may have in the model (their `Default` is known) -/
@@ -87,8 +98,15 @@ def distinct : List String → Bool
 /-- The struct-level conditions (only names and kinds are inspected). -/
 def structWF (fs : List FieldC) : Bool :=
   decide ((fs.filter (isKind .body)).length ≤ 1) && decide ((fs.filter (isKind .headerBody)).length ≤ 1)
-  && distinct ((segHs fs).map (·.name)) && distinct ((segAs fs).map (·.name)) && distinct ((segSlots fs).map (·.name))
-  && (segSlots fs).all (·.labelled)
+  && distinct ((segHs fs).map (·.name)) && distinct ((segAs fs).map (·.name))
+  -- `assess_kind`: the body fields are all labelled (slots, with distinct names) or all unlabelled (tuple items)
+  && (((segSlots fs).all (·.labelled) && distinct ((segSlots fs).map (·.name))) || (segSlots fs).all (fun f => !f.labelled))
+
+/-- Candidate side condition for `#[form(newtype)]` (statement `C16_newtype_from_to_open`): a single field that is
+not skipped; skipped fields have a known default. -/
+def allSkip : Fields → Bool
+  | .nil => true
+  | .cons _ _ kind t rest => kind == .skip && hasDflt t && allSkip rest
 
 mutual
 def tyWF : Ty → Bool
@@ -97,10 +115,14 @@ def tyWF : Ty → Bool
   | .list t => tyWF t
   | .struct _ fs => fieldsWF (attrNames fs) fs && structWF (fieldCs fs 0)
   | .newtype _ => false
-  | .enum _ => false
+  -- `EnumModel::validate`: "Duplicate enumeration tag"
+  | .enum vs => variantsWF vs && distinct (variantTags vs)
 def fieldsWF (names : List String) : Fields → Bool
   | .nil => true
   | .cons _ _ kind t rest => tyWF t && posSafe names kind t && fieldsWF names rest
+def variantsWF : Variants → Bool
+  | .nil => true
+  | .cons _ fs rest => fieldsWF (attrNames fs) fs && structWF (fieldCs fs 0) && variantsWF rest
 end
 
 mutual
